@@ -71,6 +71,8 @@ CFG = dict(
         "that every run of the Go code is such a sequence is by reading (no trace hooks in /repo); the plans the Go code returns are checked by the validity predicate",
         "sticky: theorems are about plans that are returned (performReassignments need not terminate: known finding sticky-no-return)",
         "member ids distinct, topics distinct, partition ids of a topic distinct (Go maps / cluster metadata)",
+        "the path from the group leader's metadata to the strategy's input (consumerGroup.balance) is not modelled: observed end-to-end only "
+        "(cmd/c08e2e: one real leader, topic growth between Consume calls, simulated coordinator records the synced plan)",
     ],
     trusted_base=[],
 )
@@ -89,7 +91,9 @@ CFG["manifest"] = dict(
          "(whole plans incl. err/diverges), the pure pieces of sticky (isBalanced, getBalanceScore, sortMemberIDsByPartitionAssignments, "
          "canConsumerParticipateInReassignment, assignPartition, areSubscriptionsIdentical, prepopulateCurrentAssignments, movement bookkeeping) and "
          "the validity predicate itself (Go oracle vs Lean predicate on every Go plan); bridge obligations for the two loop-free fragments the "
-         "translator can take.",
+         "translator can take. End-to-end stream (harness/cmd/c08e2e): a real ConsumerGroup leader on the simulated cluster whose subscribed topic gains "
+         "partitions between two Consume calls - every plan it syncs afterwards must hold every partition of the topic (the caller of the strategies: "
+         "consumerGroup.balance / newSession).",
     note="Trusted: Lean kernel; translator + GoSem for the two regenerated definitions; harness/line protocol. Modelled not verified: float rounding of "
          "the range bounds (relational spec, checked per run); correspondence of the sticky op model to performReassignments/balance is by reading "
          "plus observation of final plans (no op trace). Known findings on the pinned tree: F12 (two signatures), round-robin and sticky non-termination.",
